@@ -21,6 +21,9 @@ PROP = "C14"
 ALL_PARAMS = [(s, e, t) for s in (1, 2) for e in (1, 2) for t in ("top", "struct", "field")]
 KINDS = [{"id": 1, "sp": 1, "f": [1]}, {"id": 2, "sp": 1, "f": [1, 2]}, {"id": 1, "sp": 2, "f": []}, {"err": True},
          {"id": 2, "sp": 2, "f": [2, 2]}]
+# the value 0 (a value that is "false" in Python) is expected and sent like any other
+KIND0 = {"id": 0, "sp": 0, "f": [0, 1]}
+ZERO_PARAMS = [(1, 0, "top"), (2, 0, "struct"), (1, 0, "field")]
 TARGET = {"top": ("snref", "id"), "struct": ("snpathref", "st.p"), "field": ("snpathref", "fl.p")}
 
 MODELS = {
@@ -30,12 +33,14 @@ MODELS = {
                                    (2, 2, "struct")], KINDS[:4]),
         ("two_patterns", 1, 2, 2, [(1, 1, "top"), (2, 2, "field"), (1, 2, "struct"), (2, 1, "top")], KINDS[:4]),
         ("three_variants", 3, 1, 1, ALL_PARAMS[:8], KINDS[:4]),
+        ("zero_values", 2, 1, 1, ZERO_PARAMS + [(1, 1, "top"), (2, 1, "struct")], [KIND0, KINDS[0], KINDS[3]]),
     ],
     "thorough": [
         ("two_variants", 2, 1, 2, ALL_PARAMS, KINDS),
         ("two_patterns", 1, 2, 2, ALL_PARAMS[:8], KINDS),
         ("three_variants", 3, 1, 1, ALL_PARAMS, KINDS),
         ("two_by_two", 2, 2, 1, ALL_PARAMS[:6], KINDS[:4]),
+        ("zero_values", 2, 1, 2, ZERO_PARAMS + [(1, 1, "top"), (2, 1, "struct"), (2, 1, "field")], [KIND0, KINDS[0], KINDS[1], KINDS[3]]),
     ],
 }
 
@@ -255,9 +260,9 @@ def random_config(rng: random.Random) -> Tuple[Any, Any, bool]:
         pats = []
         for _ in range(rng.randint(0, 3)):
             pats.append([{"svc": s, "exp": e, "tgt": t} for (s, e, t) in
-                         [rng.choice(ALL_PARAMS) for _ in range(rng.randint(1, 3))]])
+                         [rng.choice(ALL_PARAMS + ZERO_PARAMS) for _ in range(rng.randint(1, 3))]])
         cands.append(pats)
-    ecu = [rng.choice(KINDS), rng.choice(KINDS)]
+    ecu = [rng.choice(KINDS + [KIND0]), rng.choice(KINDS + [KIND0])]
     return cands, ecu, rng.random() < 0.5
 
 
